@@ -5,6 +5,9 @@ The exact-partition arithmetic is not decidable by this technique. Decided:
                    true, the task set is waited on (directly, or by a dispatcher that does) before the
                    function returns; the global-pool convenience overloads force wait = true before
                    delegating.
+  C12.caller-skip  static path with wait: the generator maps scheduler index k to chunk k for k below the
+                   caller's reserved chunk c and to k+1 from c on (increment guarded by k >= c), so the
+                   scheduled chunks are exactly {0..n-1} minus {c}: no chunk runs twice, none is skipped.
   C12.cursor-width the adaptive path's claim cursor is advanced by an unconditional fetch_add on every
                    claim, also a failing one; it cannot wrap only if it is strictly wider than the
                    index type (compile-time witness for all 8 index types) or the advance is guarded
@@ -66,6 +69,28 @@ def run(R):
         ok = bool(sets) and bool(calls) and all(fn.dominates(sets[0][0], p) for p, _ in calls)
         R.ob("C12.completion", fn, fn.loc, ok, "options.wait = true before delegating" if ok else "global-pool overload can delegate without forcing wait (its local TaskSet would be destroyed under running chunks)", sitekey="global-overload", why=WHY)
     R.need("C12.completion", m, 2, "global-pool parallel_for overloads")
+
+    # ---- static caller chunk is skipped by the scheduled set ----------------------------------------------
+    k = 0
+    for fn in F.fns:
+        if not (fn.is_lambda and fn.parent is not None and fn.parent.qname == "dispenso::detail::parallel_for_staticImpl"):
+            continue
+        incs = [(p, e) for p, e in fn.events() if e.get("k") == "un" and e.get("op") == "++" and isinstance(strip_casts(e.get("e")), dict) and strip_casts(e.get("e")).get("name") == "chunkIdx"]
+        if not incs:
+            continue
+        k += 1
+        p, e = incs[0]
+        vid = strip_casts(e.get("e")).get("vid")
+        ok = False
+        det = "remap not guarded by a comparison with the caller's chunk"
+        from lib.rules import comparison_of
+        for at, pol, b in fn.guard_atoms(p):
+            c = comparison_of(at, pol, lambda x: isinstance(strip_casts(x), dict) and strip_casts(x).get("vid") == vid)
+            if c and isinstance(strip_casts(c[1]), dict) and strip_casts(c[1]).get("name") == "callerChunk":
+                det = "chunkIdx %s callerChunk => ++chunkIdx" % c[0]
+                ok = c[0] == ">="
+        R.ob("C12.caller-skip", fn, e, ok, det, sitekey="static-remap", why="the caller runs chunk c itself; the scheduled chunks must be all the others, each once")
+    R.need("C12.caller-skip", k, 1, "static generator remap")
 
     # ---- cursor width ------------------------------------------------------------------------------------
     guarded = False
